@@ -1,6 +1,7 @@
 // Correspondence / oracle harness: runs the real crates in-process on case lines read from
 // stdin and prints one canonical line per case (see /verif/DESIGN.md §2.3).
 mod codec;
+mod m_lex;
 mod m_symtab;
 mod m_types;
 
@@ -27,6 +28,8 @@ fn main() {
     let f: fn(&str) -> String = match mode {
         "types" => m_types::line,
         "symtab" => m_symtab::line,
+        "lex" => m_lex::line,
+        "uclass" => m_lex::uclass,
         _ => {
             eprintln!("usage: oq3-run <mode>");
             std::process::exit(2);
